@@ -142,7 +142,7 @@ func exploreLocal(sc Scenario, b Bounds, item Item, maxExec int, deadline time.T
 			if len(fs2) == 0 || fs2[0].Class != fs[0].Class || !sameChoices(res.Choices, res2.Choices) {
 				panic(HarnessError{fmt.Sprintf("nondeterminism not captured: schedule %v of %s failed with %v, replay gave %v", res.Choices, sc.Name(), fs, fs2)})
 			}
-			for _, f := range fs {
+			for _, f := range fs2 { // findings of the traced replay carry the parking sites
 				if len(st.Violations) < 20 {
 					st.Violations = append(st.Violations, Replay{Scn: sc.Name(), Bounds: b, Choices: res.Choices, Class: f.Class, What: f.What, Trace: res2.Trace})
 				}
